@@ -22,10 +22,15 @@
 (*            the requester of a refused allocation                        *)
 (*     declared   the schema the reader declared ([s, nullable] per field) *)
 (*     batches    every batch returned before the end / the error:         *)
-(*            [big, schema, cols (vcore::dump::to_layout), nrows, vf,      *)
+(*            [ref, big, schema, cols (vcore::dump::to_layout), nrows, vf, *)
 (*             lens, types]; `big` batches carry no dumps (too large for   *)
 (*            TLC), `vf` = the crate's own validate_full + RecordBatch     *)
-(*            ::try_new accepted the batch (an observation)                *)
+(*            ::try_new accepted the batch (an observation).  Sessions are *)
+(*            grouped by (file, api); each group starts with the session   *)
+(*            on the uncorrupted file (src = "base"); a later batch whose  *)
+(*            dump is identical to batch k of that base session is logged  *)
+(*            as ref = k without the dump (the specification keeps the     *)
+(*            base batches in its state and judged them there).            *)
 (*  [ev |-> "variant", src, meta, value, outcome, where, tok]              *)
 (*  [ev |-> "vmeta", src, meta, outcome, where, names]                     *)
 (*                                                                         *)
@@ -45,7 +50,9 @@ EXTENDS Untrusted, ArrowLayout, TraceBase
 
 V == INSTANCE VariantFormat
 
-VARIABLE l
+VARIABLES l,       \* index of the next event
+          bkey,    \* <<fmt, file, api>> of the last base session
+          bases    \* its batches
 
 (* ------------------------------------------------------------ effect *)
 EffectOK(e) ==
@@ -65,12 +72,22 @@ EffectOK(e) ==
 (* ----------------------------------------------------------- batches *)
 SchemaEq(a, b) == Len(a) = Len(b) /\ \A i \in 1..Len(a) : a[i].s = b[i].s /\ a[i].nullable = b[i].nullable
 
-BatchOK(e, b) ==
+FullBatchOK(e, b) ==
   /\ b.vf
   /\ e.has_declared /\ SchemaEq(e.declared, b.schema)
   /\ Len(b.lens) = Len(b.schema) /\ Len(b.types) = Len(b.schema)
   /\ \A i \in 1..Len(b.schema) : b.lens[i] = b.nrows /\ b.types[i] = b.schema[i].s
   /\ b.big \/ BatchWellFormed(b.schema, b.cols, b.nrows)
+
+(* a reference is to a batch of the base session of the same (file, api),    *)
+(* which was judged in full when that session was read; what remains is the  *)
+(* agreement with the schema this session declared                           *)
+BatchOK(e, b) ==
+  IF b.ref = 0 THEN FullBatchOK(e, b)
+  ELSE /\ e.src # "base" /\ bkey = <<e.fmt, e.file, e.api>>
+       /\ b.ref >= 1 /\ b.ref <= Len(bases)
+       /\ b.vf /\ b.nrows = bases[b.ref].nrows
+       /\ e.has_declared /\ SchemaEq(e.declared, bases[b.ref].schema)
 
 BatchesOK(e) == Len(e.batches) = e.nb /\ \A i \in 1..Len(e.batches) : BatchOK(e, e.batches[i])
 
@@ -103,9 +120,12 @@ VMetaOK(e) ==
   /\ e.outcome = "ok" => (V!MetaValid(e.meta) /\ e.names = NamesTok(e.meta))
   /\ e.src = "base" => e.outcome = "ok"
 
-Init == l = 1
+Init == l = 1 /\ bkey = <<"", "", "">> /\ bases = <<>>
 Next == /\ l <= Len(Rec)
         /\ l' = l + 1
+        /\ IF Rec[l].ev = "session" /\ Rec[l].src = "base"
+             THEN bkey' = <<Rec[l].fmt, Rec[l].file, Rec[l].api>> /\ bases' = Rec[l].batches
+             ELSE UNCHANGED <<bkey, bases>>
         /\ LET e == Rec[l] IN
            CASE e.ev = "session" ->
                   /\ Judge(EffectOK(e), l, "effect")
@@ -114,5 +134,5 @@ Next == /\ l <= Len(Rec)
              [] e.ev = "variant" -> JudgeKF(VariantOK(e), l, "variant", KFV(e))
              [] e.ev = "vmeta" -> JudgeKF(VMetaOK(e), l, "vmeta", KFV(e))
              [] OTHER -> Judge(FALSE, l, "unknown event kind")
-Spec == Init /\ [][Next]_l
+Spec == Init /\ [][Next]_<<l, bkey, bases>>
 =============================================================================
